@@ -97,6 +97,9 @@ type service struct {
 	// Whether this is service is closed or not.
 	closed int64
 
+	// Last packet identifier used for messages forwarded to this connection.
+	pktid uint32
+
 	// Quit signal for determining when this service should end. If channel is closed,
 	// then exit.
 	done chan struct{}
@@ -161,6 +164,13 @@ func (svc *service) start() error {
 			// subscribers (MQTT-3.3.1-3); with a QoS 0 delivery it would even
 			// yield a malformed packet (MQTT-3.3.1-2).
 			msg.SetDup(false)
+
+			// The packet identifier belongs to the connection the message came
+			// in on. Several publishers may use the same identifier at the same
+			// time, so a delivery gets an identifier of this connection.
+			if msg.QoS() != message.QosAtMostOnce {
+				msg.SetPacketID(svc.nextPacketID())
+			}
 
 			if err := svc.publish(msg, nil); err != nil {
 				log.Errorf("(%s) Error publishing message: %v", svc.cid(), err)
@@ -457,6 +467,16 @@ func (svc *service) ping(onComplete OnCompleteFunc) error {
 	}
 
 	return svc.sess.Pingack.Wait(msg, onComplete)
+}
+
+// nextPacketID returns the next packet identifier for messages this service
+// sends on its own behalf. Zero is not a valid identifier.
+func (svc *service) nextPacketID() uint16 {
+	for {
+		if id := uint16(atomic.AddUint32(&svc.pktid, 1)); id != 0 {
+			return id
+		}
+	}
 }
 
 func (svc *service) isDone() bool {
